@@ -34,7 +34,11 @@ func (gaugeScenario) Config(r *rand.Rand, small bool) string {
 	if r.Intn(5) == 0 {
 		pr = 1 // a collector that PANICS when it is told about a rejection (run side and fallback side)
 	}
-	return fmt.Sprintf("k=%d mc=%d fbmc=%d acts=%s pr=%d", k, lims[r.Intn(5)], lims[r.Intn(5)], acts, pr)
+	dis := 0
+	if r.Intn(10) == 0 {
+		dis = 1 // the kill switch: Execute is the run function called directly — no limits, no gauges, no fallback
+	}
+	return fmt.Sprintf("k=%d mc=%d fbmc=%d acts=%s pr=%d dis=%d", k, lims[r.Intn(5)], lims[r.Intn(5)], acts, pr, dis)
 }
 
 type countRec struct {
@@ -101,6 +105,8 @@ func (gaugeScenario) Build(cfg string) ([]func(), func(*vsched.Sched) []string) 
 	conf.Execution.MaxConcurrentRequests = int64(mc)
 	conf.Fallback.MaxConcurrentRequests = int64(fbmc)
 	conf.Execution.Timeout = 0
+	disabled := cfgInt(cfg, "dis") == 1
+	conf.General.Disabled = disabled
 	c.SetConfigThreadSafe(conf)
 	nameVars(c, "c")
 	var problems []string
@@ -129,7 +135,7 @@ func (gaugeScenario) Build(cfg string) ([]func(), func(*vsched.Sched) []string) 
 				outs[i].ran = true
 				runInvoked++
 				inRun++
-				if mc >= 0 && inRun > mc {
+				if !disabled && mc >= 0 && inRun > mc {
 					problems = append(problems, fmt.Sprintf("%d run functions in flight with MaxConcurrentRequests=%d", inRun, mc))
 				}
 				vsched.Yield("in-run")
@@ -166,6 +172,21 @@ func (gaugeScenario) Build(cfg string) ([]func(), func(*vsched.Sched) []string) 
 		}
 		if g := c.ConcurrentFallbacks(); g != 0 {
 			problems = append(problems, fmt.Sprintf("C04: ConcurrentFallbacks reads %d once all calls have returned (by return or by panic, a collector's panic on a rejection included)", g))
+		}
+		if disabled {
+			// C08: the kill switch makes Execute a plain call of the run function — every one ran, no fallback did, nothing
+			// was recorded, the error or panic is the run function's own
+			for i, o := range outs {
+				if !o.ran || o.fbRan {
+					problems = append(problems, fmt.Sprintf("C08: Disabled circuit: caller %d ran=%t fallback=%t (must be true / false)", i, o.ran, o.fbRan))
+				}
+				if acts[i] == 's' && (o.err != nil || o.panicked) || acts[i] == 'p' && !o.panicked || strings.ContainsRune("fFP", rune(acts[i])) && o.err != errBoom {
+					problems = append(problems, fmt.Sprintf("C08: Disabled circuit: caller %d (act %c) got err=%v panicked=%t instead of its run function's own outcome", i, acts[i], o.err, o.panicked))
+				}
+			}
+			if rec.runEvents+rec.fbEvents+rec.runRejects+rec.fbRejects != 0 {
+				problems = append(problems, "C08: a Disabled circuit recorded events")
+			}
 		}
 		runRejected := 0
 		for i, o := range outs {
